@@ -547,7 +547,7 @@ func c17MergeClass(base, left, right any) string {
 	shrink := false
 	jDiffPaths(base, left, nil, &lp, &shrink)
 	jDiffPaths(base, right, nil, &rp, &shrink)
-	inversion, arrays, esc, growsEmpty := false, false, false, false
+	inversion, arrays, esc, growsEmpty, quote := false, false, false, false, false
 	strip := func(ps [][]jElem) [][]jElem {
 		var out [][]jElem
 		for _, p := range ps {
@@ -572,6 +572,7 @@ func c17MergeClass(base, left, right any) string {
 			for _, e := range p {
 				arrays = arrays || e.isIdx
 				esc = esc || (!e.isIdx && needsBackslashEscape(e.key))
+				quote = quote || (!e.isIdx && strings.Contains(e.key, `"`))
 			}
 		}
 	}
@@ -590,6 +591,9 @@ func c17MergeClass(base, left, right any) string {
 	}
 	if esc {
 		flags = append(flags, "escaped-keys")
+	}
+	if quote {
+		flags = append(flags, "member-name-containing-a-double-quote")
 	}
 	if len(flags) == 0 {
 		return "plain-object-edits"
